@@ -141,9 +141,8 @@ def run_stream(chk, prefix, replay=None):
         if sig in seen:
             continue
         seen.add(sig)
-        for e in lines:
-            e.pop("_l", None)
-        chk.violation(sig, f"{v['prop']} at event {v['e']} of behaviour {hist}", [b] + lines)
+        clean = [{k: x for k, x in e.items() if k != "_l"} for e in lines]
+        chk.violation(sig, f"{v['prop']} at event {v['e']} of behaviour {hist}", [b] + clean)
         if len(chk.violations) >= 8:
             break
     if crashed and not chk.violations:
